@@ -318,3 +318,85 @@ def run_index_levels(seed=0):
         finally:
             shutil.rmtree(tmp, ignore_errors=True)
     return runs, problems
+
+
+def run_concurrent_open(seed=0):
+    """a writer in the middle of storing a value (its blob is being copied into the storage) while another user of the same root starts up
+    (`CacheToDisk.simple(root=...)`), reads another key, or asks for the same key: the writer's call returns its value, the entry is fully
+    visible afterwards, nothing is recomputed later (C12: concurrent writers and readers never see or cause a partial entry)"""
+    import io, threading
+    paths.use_repo()
+    from connectome import CacheToDisk, Transform
+    from connectome.serializers import JsonSerializer
+    from .sym import SymWorld
+    os.makedirs(paths.SCRATCH, exist_ok=True)
+    problems, runs = [], 0
+    for action in ('open', 'open-and-read-other', 'read-same'):
+        tmp = tempfile.mkdtemp(prefix='cv-copen-', dir=paths.SCRATCH)
+        try:
+            root = os.path.join(tmp, 'cache')
+            world = SymWorld()
+            world.tables['CO.x'] = {(0,): [0, 0], (7,): [7, 70], (8,): [8, 80]}
+            fn = world.fn('CO.x', params=['x'])
+            in_copy, resume = threading.Event(), threading.Event()
+            gate = [True]
+
+            class SlowStream(io.BytesIO):
+                def __init__(self, data):
+                    super().__init__(data)
+                    self.rewound = False
+
+                def seek(self, *a, **k):
+                    self.rewound = True
+                    return super().seek(*a, **k)
+
+                def read(self, *a, **k):
+                    if self.rewound and gate[0]:        # the second pass over the data is the copy into the storage
+                        gate[0] = False
+                        in_copy.set()
+                        resume.wait(20)
+                    return super().read(*a, **k)
+
+            class SlowJson(JsonSerializer):
+                def save(self, value, write):
+                    yield 'value.json', write(SlowStream(json.dumps(value, sort_keys=True).encode()))
+
+            def pipeline(serializer=None):
+                return Transform(x=fn) >> CacheToDisk.simple('x', root=root, serializer=serializer)
+            pipeline().x(0)           # the storage exists beforehand
+            outcome = {}
+
+            def writer():
+                try:
+                    outcome['value'] = pipeline(SlowJson()).x(7)
+                except BaseException as e:
+                    outcome['error'] = type(e).__name__ + ': ' + str(e)[:100]
+            th = threading.Thread(target=writer, daemon=True)
+            th.start()
+            if not in_copy.wait(20):
+                resume.set()
+                th.join(5)
+                continue              # the write path has no second pass any more: this scenario cannot hold the writer
+            try:
+                other = pipeline()
+                if action == 'open-and-read-other':
+                    other.x(8)
+                elif action == 'read-same':
+                    other.x(7)
+            except Exception as e:
+                problems.append({'msg': f'while a writer was storing x(7), another user of the root ({action}) raised {type(e).__name__}: {str(e)[:100]}'})
+            resume.set()
+            th.join(20)
+            runs += 1
+            if 'error' in outcome or list(outcome.get('value', [])) != [7, 70]:
+                problems.append({'msg': f'a writer computed x(7) and was storing it while another user of the same root did "{action}": the call of the writer '
+                                        f'ended with {outcome.get("error", outcome.get("value"))!r} instead of returning the value'})
+                continue
+            mark = world.mark()
+            v = pipeline().x(7)
+            if list(v) != [7, 70] or world.since(mark):
+                problems.append({'msg': f'after a write that overlapped with "{action}" on the same root the entry is not served from the cache '
+                                        f'(returned {v!r}, {len(world.since(mark))} computations)'})
+        finally:
+            shutil.rmtree(tmp, ignore_errors=True)
+    return runs, problems
